@@ -58,21 +58,28 @@ structure Reader where
   tailEof : Bool := false
   deriving DecidableEq, Repr, Inhabited
 
+/-- number of bytes an answer delivers for a request of `len` bytes when `avail` bytes are left -/
+def Answer.size (a : Answer) (len avail : Nat) : Nat :=
+  min (if a.half then (len + 1) / 2 else min a.cap len) avail
+
+/-- the error an answer returns with its `m` bytes; `scripted`: the answer comes from the script (only such an
+answer can be the zero-length read `(0, nil)`), `exhausted`: no byte is left after this call -/
+def Answer.err (a : Answer) (scripted : Bool) (m : Nat) (exhausted : Bool) : Option ErrKind :=
+  if a.flag = .ioerr then some .other
+  else if m = 0 ∧ scripted = true ∧ a.half = false ∧ a.cap = 0 ∧ a.flag = .none then none  -- (0, nil)
+  else if exhausted = true ∧ (a.flag = .eofWithData ∨ m = 0) then some .eof
+  else none
+
 /-- `n, err := src.Read(p)` with `len(p) = len`: the bytes copied into `p`, the error, the reader afterwards. -/
 def Reader.read (r : Reader) (len : Nat) : List UInt8 × Option ErrKind × Reader :=
-  let (a, scripted, script') : Answer × Bool × List Answer :=
-    match r.script with
-    | a :: s => (a, true, s)
-    | [] => ({ cap := len, flag := if r.tailEof then .eofWithData else .none }, false, [])
-  let m0 := if a.half then (len + 1) / 2 else min a.cap len
-  let m := min m0 r.rest.length
-  let data := r.rest.take m
-  let rest' := r.rest.drop m
-  let r' : Reader := { r with rest := rest', script := script' }
-  if a.flag = .ioerr then (data, some .other, r')
-  else if m = 0 ∧ scripted ∧ a.half = false ∧ a.cap = 0 ∧ a.flag = .none then (data, none, r')  -- (0, nil)
-  else if rest' = [] ∧ (a.flag = .eofWithData ∨ m = 0) then (data, some .eof, r')
-  else (data, none, r')
+  match r.script with
+  | a :: s =>
+    let m := a.size len r.rest.length
+    (r.rest.take m, a.err true m (r.rest.drop m).isEmpty, { r with rest := r.rest.drop m, script := s })
+  | [] =>
+    let a : Answer := { cap := len, flag := if r.tailEof then .eofWithData else .none }
+    let m := a.size len r.rest.length
+    (r.rest.take m, a.err false m (r.rest.drop m).isEmpty, { r with rest := r.rest.drop m, script := [] })
 
 /-! ## `Input` -/
 
@@ -214,6 +221,16 @@ def acceptOf (x : Nat) : Nat × Nat :=
 def Input.pushRune (i : Input) (size : Nat) : Input :=
   { i with runeSizes := size :: i.runeSizes, nextColumn := i.nextColumn + 1 }
 
+/-- bookkeeping after a one-byte rune:
+```go
+if b0 == '\n' { i.lastColumns.Push(i.nextColumn); i.nextColumn = 1 } else { i.nextColumn++ }
+i.runeSizes.Push(1)
+``` -/
+def Input.pushAscii (i : Input) (b0 : UInt8) : Input :=
+  if b0 = 10 then
+    { i with lastColumns := i.nextColumn :: i.lastColumns, nextColumn := 1, runeSizes := 1 :: i.runeSizes }
+  else { i with nextColumn := i.nextColumn + 1, runeSizes := 1 :: i.runeSizes }
+
 /-- `func (i *Input) Next() (rune, error)` -/
 def Input.Next (i : Input) : Outcome (Input × NextResult) :=
   -- First byte
@@ -226,11 +243,7 @@ def Input.Next (i : Input) : Outcome (Input × NextResult) :=
     if x ≥ lexer_input_as then
       if x = lexer_input_xx then .ok (i, .invalid i.forwardPos)
       else
-        -- Check for new line
-        let i : Input :=
-          if b0 = 10 then { i with lastColumns := i.nextColumn :: i.lastColumns, nextColumn := 1 }
-          else { i with nextColumn := i.nextColumn + 1 }
-        .ok ({ i with runeSizes := 1 :: i.runeSizes }, .rune b0.toNat)
+        .ok (i.pushAscii b0, .rune b0.toNat)
     else
       let size := x &&& 7
       -- Second byte
@@ -266,6 +279,49 @@ def Input.Next (i : Input) : Outcome (Input × NextResult) :=
                   .ok (i.pushRune size, .rune ((b0.toNat &&& lexer_input_mask4) <<< 18 |||
                     (b1.toNat &&& lexer_input_maskx) <<< 12 ||| (b2.toNat &&& lexer_input_maskx) <<< 6 |||
                     (b3.toNat &&& lexer_input_maskx)))
+
+/-- What `Next` computes as a function of the bytes `next()` hands it (the table-driven decoder of `Next`
+without the buffer): the rune and its length, or an invalid sequence after `consumed` bytes, or `short` when
+`next()` fails (end of input) before the sequence is complete.  `Proofs/C19Next.lean` proves that `Input.Next`
+is this function applied to the bytes at `forward`. -/
+inductive Dec where
+  | rune (r size : Nat)
+  | invalid (consumed : Nat)
+  | short
+  deriving DecidableEq, Repr, Inhabited
+
+def decodeRune : List UInt8 → Dec
+  | [] => .short
+  | b0 :: bs =>
+    let x := firstOf b0
+    if x ≥ lexer_input_as then
+      if x = lexer_input_xx then .invalid 1 else .rune b0.toNat 1
+    else
+      let size := x &&& 7
+      match bs with
+      | [] => .short
+      | b1 :: bs =>
+        let accept := acceptOf x
+        if b1.toNat < accept.1 ∨ accept.2 < b1.toNat then .invalid 2
+        else if size = 2 then
+          .rune ((b0.toNat &&& lexer_input_mask2) <<< 6 ||| (b1.toNat &&& lexer_input_maskx)) 2
+        else
+          match bs with
+          | [] => .short
+          | b2 :: bs =>
+            if b2.toNat < lexer_input_locb ∨ lexer_input_hicb < b2.toNat then .invalid 3
+            else if size = 3 then
+              .rune ((b0.toNat &&& lexer_input_mask3) <<< 12 |||
+                (b1.toNat &&& lexer_input_maskx) <<< 6 ||| (b2.toNat &&& lexer_input_maskx)) 3
+            else
+              match bs with
+              | [] => .short
+              | b3 :: _ =>
+                if b3.toNat < lexer_input_locb ∨ lexer_input_hicb < b3.toNat then .invalid 4
+                else
+                  .rune ((b0.toNat &&& lexer_input_mask4) <<< 18 |||
+                    (b1.toNat &&& lexer_input_maskx) <<< 12 ||| (b2.toNat &&& lexer_input_maskx) <<< 6 |||
+                    (b3.toNat &&& lexer_input_maskx)) size
 
 /-- `func (i *Input) Retract()` -/
 def Input.Retract (i : Input) : Outcome Input :=
